@@ -469,6 +469,12 @@ def _check_find_keyword(run: Run, m, mod: str) -> None:
             rem = [c for c in calls_in(fk) if isinstance(c.func, ast.Attribute) and c.func.attr == "remove"]
             others = [c for c in calls_in(fk) if isinstance(c.func, ast.Attribute) and c.func.attr in ("pop", "clear", "__delitem__")] + [x for x in own_nodes(fk) if isinstance(x, ast.Delete)]
             ok_rest = len(rem) == 1 and not others and strip_sites(fa.term_of(rem[0].func.value)) == rest and strip_sites(fa.term_of(rem[0].args[0])) == val[1] and fa.cfg.dominates(fa.cfg.node_of(rem[0]), n)
+            dels = [x for x in own_nodes(fk) if isinstance(x, ast.Delete)]
+            if not ok_rest and not rem and len(dels) == 1 and len(dels[0].targets) == 1 and isinstance(dels[0].targets[0], ast.Subscript) and not [c for c in calls_in(fk) if isinstance(c.func, ast.Attribute) and c.func.attr in ("pop", "clear", "__delitem__")]:
+                # del copy[i] where (i, kw) were found together: position and keyword are the two halves of one search result
+                tg = dels[0].targets[0]
+                it_ = strip_sites(fa.term_of(tg.slice))
+                ok_rest = strip_sites(fa.term_of(tg.value)) == rest and it_[0] == "index" and it_[2] == 0 and val[1] == ("index", it_[1], 1) and contains(it_[1], lambda q: q[0] == "app" and q[1] == ("global", "builtins.enumerate") and q[2] == (kws,)) and fa.cfg.dominates(fa.cfg.node_of(dels[0]), n)
             why = "list(keywords) without exactly one .remove(<matched keyword>) before the return"
         elif rest[0] == "comp" and len(rest[3]) == 1 and rest[3][0][0] == kws and len(rest[3][0][1]) == 1:
             cond = rest[3][0][1][0]
